@@ -85,6 +85,9 @@ def random_case(rng, tier):
         program = programs.gen_process_program(rng, PROGRAM_CFG)
     ticks, notify, _ = common.dry_run(program)
     max_actions = 4 if tier == 'quick' else 6
+    if rng.random() < 0.15:
+        # whoever runs the process gives up at some point (the stepping task is cancelled) and it is picked up again later
+        kinds = kinds + ['cancel_stepper', 'cancel_stepper', 'restep']
     schedule = common.gen_schedule(rng, kinds, max_actions, ticks, notify, late=0.3)
     for action in schedule:
         if action['act'] == 'complete':
